@@ -1,5 +1,6 @@
 import GqlProofs.ValSpec.Spreads
 import GqlProofs.ValSpec.LeafFrag
+import GqlProofs.ValSpec.DefDirs
 import GqlModel.Validate.Spec.Links
 /-
   C09 — validated documents are completely and correctly linked.
@@ -23,15 +24,23 @@ import GqlModel.Validate.Spec.Links
                                   field on that type, and every field node has such an event
     C09_directive_links_correct   every directive written in the document is linked to the definition
                                   of its name and to the location it is written at
+    C09_fragment_definition_directives_walked_per_operation
+                                  for every operation and every spread written in its selection set
+                                  whose fragment exists, the directives of the fragment DEFINITION
+                                  are walked on behalf of that operation (events with
+                                  `CurrentOperation` = the operation, location FRAGMENT_DEFINITION,
+                                  parent = definition of the type condition) — this is what links
+                                  the variables used there to the operation's variable definitions
 
   NOT finished (kept as the goal):
     C09_links_complete : Closed s → validate defaultRules s d = .ok [] →
         Spec.linksComplete s d (linkDump evs) = true
-  Two parts of it are FALSE for the current tree and are reported by the check on the real walker:
-  an inline fragment carries the ENCLOSING type, not its type condition's definition
-  (`link-wrong:inlineFragment:obj`), and a variable used in the directives of a fragment definition
-  is never linked (`link-missing:value:var`).  For field / value links the missing lemma is
-  `walk_parent_type` (see C08.lean).
+  One part of it is FALSE for the current tree and is reported by the check on the real walker
+  (known finding): an inline fragment carries the ENCLOSING type, not its type condition's
+  definition (`link-wrong:inlineFragment:obj`).  (A variable used in the directives of a fragment
+  definition used to be never linked — `link-missing:value:var`; the walker now walks those
+  directives on the first visit of the fragment in every operation, `walkSelection` `.spread`.)
+  For field / value links the missing lemma is `walk_parent_type` (see C08.lean).
 -/
 open Gql Gql.Validate
 
@@ -94,6 +103,33 @@ theorem C09_directive_links_correct (s : Schema) (d : QueryDoc) (evs : List Even
       dfn = s.directive? dir.name ∧ ∃ ds, (loc, ds) ∈ Spec.directiveSites s d ∧ dir ∈ ds) :=
   ⟨fun loc ds hs dir hd => directive_event_complete s d evs h hk loc ds hs dir hd,
    fun e he dir dfn par loc hp => directive_event_sound s d evs h hk e he dir dfn par loc hp⟩
+
+/-- the directives of a fragment DEFINITION are walked once more for every operation that spreads
+    the fragment: the run has, with `CurrentOperation` = that operation, the `directiveList` event of
+    the definition's directive list and a `directive` event for each of its directives, carrying the
+    directive definition of its name, the definition of the fragment's type condition as parent and
+    the location FRAGMENT_DEFINITION.  (The value events of their arguments — where variables are
+    linked and marked used — are fired by the same `walkDirectives` call.) -/
+theorem C09_fragment_definition_directives_walked_per_operation (s : Schema) (d : QueryDoc) (evs : List Event)
+    (h : walkDoc s.view d = some evs) :
+    ∀ op ∈ d.ops, ∀ nm dirs p f, InSels op.sel (.sel (.spread nm dirs p)) → fragForName d nm = some f →
+      (∃ e ∈ evs, e.cur = some op ∧ e.p = .directiveList f.dirs) ∧
+      ∀ dir ∈ f.dirs, ∃ e ∈ evs, e.cur = some op ∧
+        e.p = .directive dir (s.directive? dir.name) (s.type? f.typeCond) locFragmentDefinition :=
+  fun op hop nm dirs p f hs hf => walkDoc_defDirs s.view d evs h op hop nm f ⟨dirs, p, hs⟩ hf
+
+/-- non-vacuity: an operation that spreads a fragment whose definition carries a directive with a
+    variable — the variable use is linked to the operation's definition and marked used -/
+example :
+    let dir : Directive := { name := str "skip", args := [{ name := str "if", value := .mk .variable (str "v") .nil Pos.zero, pos := Pos.zero }], pos := Pos.zero }
+    let f : FragmentDef := { name := str "F", vars := [], typeCond := str "Q", dirs := [dir], sel := .nil, pos := Pos.zero }
+    let v : VarDef := { var := str "v", type := .named (str "Boolean") true Pos.zero, default := none, dirs := [], pos := Pos.zero }
+    let op : OperationDef := { op := opQuery, name := [], vars := [v], dirs := [], sel := .cons (.spread (str "F") [] Pos.zero) .nil, pos := Pos.zero }
+    let d : QueryDoc := { ops := [op], frags := [f] }
+    (walkDoc Schema.empty.view d).map (fun evs => evs.filterMap fun e => match e.p with
+      | .operation _ used => some used
+      | _ => none) = some [[true]] := by
+  decide
 
 /-- the walk always succeeds (C02), so the statements above are not vacuous -/
 example (s : Schema) (d : QueryDoc) : ∃ evs, walkDoc s.view d = some evs := walkDoc_isSome s.view d
